@@ -50,3 +50,34 @@ Print Assumptions C10_gram_schmidt_step_orthonormal.
 (* the invariant holds for the empty set of columns (start of every aggregate) *)
 Example C10_invariant_start : forall F (o : Ops F) n, InvO o n [].
 Proof. intros F o n. apply Inv_nil. Qed.
+
+(* the whole aggregate: if the square-root function is exact on the squared norms that occur and a kept column has a
+   nonzero norm, the columns q_0 .. q_{K-1} produced for one aggregate satisfy  q_i . q_j = 0 for i < j  and, for every i,
+   q_i . q_i = 1  or  q_i is orthogonal to every vector (a dropped column): Q^T Q = diag(1 or 0) *)
+Definition PInvO {F} (o : Ops F) (n : nat) (Q : list (list F)) : Prop :=
+  InvO o n Q /\
+  (forall i j, (i < j < length Q)%nat -> vdot o (nth i Q []) (nth j Q []) = zero o) /\
+  (forall i, (i < length Q)%nat -> vdot o (nth i Q []) (nth i Q []) = one o \/ forall w, vdot o w (nth i Q []) = zero o).
+Theorem C10_gram_schmidt_aggregate_orthonormal : forall F (o : Ops F) inv (fsqrt : F -> F), is_field o inv ->
+  (forall v, mul o (fsqrt (vnormsq o v)) (fsqrt (vnormsq o v)) = vnormsq o v) ->
+  forall tol, (forall a b, ltb o (mul o tol (fsqrt a)) (fsqrt b) = true -> fsqrt b <> zero o) ->
+  forall (n : nat) (cols : list (list F)), (forall c, In c cols -> length c = n) ->
+  let Q := fst (mgs o fsqrt tol cols) in
+  length Q = length cols /\ PInvO o n Q.
+Proof.
+  intros F [z0 o1 ad sb ml dv op ab eq le lt] inv fsqrt [Fth _].
+  exact (mgs_all_orthonormal F z0 o1 ad ml sb op dv inv ab eq le lt fsqrt Fth).
+Qed.
+Print Assumptions C10_gram_schmidt_aggregate_orthonormal.
+(* non-vacuity: in the two-element field (a field with decidable equality, see C09_field_inhabited) x * x = x, so the
+   identity is an exact square root, and "t < b" (false < true) forces b = true <> 0: both hypotheses hold *)
+Require Import PV.Props.C09.
+Example C10_aggregate_hypotheses_satisfiable :
+  is_field b2 (fun a => a) /\
+  (forall v, mul b2 ((fun x => x) (vnormsq b2 v)) ((fun x => x) (vnormsq b2 v)) = vnormsq b2 v) /\
+  (forall tol a b, ltb b2 (mul b2 tol a) b = true -> b <> zero b2).
+Proof.
+  split; [exact C09_field_inhabited|]. split.
+  - intro v. cbn. destruct (vnormsq b2 v); reflexivity.
+  - intros tol a b. cbn. destruct b; [discriminate|]. rewrite andb_false_r. discriminate.
+Qed.
